@@ -216,7 +216,7 @@ def check(ctx):
         if not ok:
             ctx.violation('C15.R5', rel, f, Model.qual(f), 'decode_with_length must return (value, offset) of the single decode(data, 0) call after check_decode_error', stmt='decode_with_length shape')
         g = model.func(rel, 'CompiledType.decode')
-        ok = ast.unparse(g.body[-1]).replace(' ', '') == 'returnself.decode_with_length(data)[0]'
+        ok = _returns_result_of(g, 'self.decode_with_length'
         ctx.instance('C15.R5', Model.qual(g), 'ok' if ok else 'VIOLATION', node=g, file=rel)
         if not ok:
             ctx.violation('C15.R5', rel, g, Model.qual(g), 'decode() is no longer decode_with_length()[0]: the two entry points may disagree', stmt='decode = decode_with_length[0]')
@@ -229,7 +229,7 @@ def check(ctx):
     if not ok:
         ctx.violation('C15.R5', COMP, sp, Model.qual(sp), 'Specification.decode_with_length does not return the codec result unchanged', stmt='pass-through')
     sl = model.func(COMP, 'Specification.decode_length')
-    ok = ast.unparse(sl.body[-1]).replace(' ', '') == 'returnself._decode_length(data)'
+    ok = _returns_result_of(sl, 'self._decode_length'
     ctx.instance('C15.R5', Model.qual(sl), 'ok' if ok else 'VIOLATION', node=sl, file=COMP)
     if not ok:
         ctx.violation('C15.R5', COMP, sl, Model.qual(sl), 'Specification.decode_length does not return the probe result unchanged', stmt='pass-through')
@@ -240,6 +240,28 @@ def check(ctx):
         ctx.violation('C15.R5', COMP, cd, Model.qual(cd), 'Specification no longer receives the codec own decode_full_length', stmt='probe wiring')
     ctx.floor('C15.R1', 6)
     ctx.floor('C15.R2', 6)
+
+
+def _returns_result_of(f, callee):
+    """Every return of f returns (a projection of) the result of the single call of `callee`."""
+    calls = [c for c in walk_no_nested(f) if isinstance(c, ast.Call) and ast.unparse(c.func) == callee]
+    rets = [r for r in walk_no_nested(f) if isinstance(r, ast.Return) and r.value is not None]
+    if len(calls) != 1 or not rets:
+        return False
+    bound = set()
+    st = Model.enclosing_stmt(calls[0])
+    if isinstance(st, ast.Assign):
+        for t in st.targets:
+            bound.update(flow.target_names(t))
+    for r in rets:
+        inside = any(n is calls[0] for n in ast.walk(r.value))
+        vianame = bool(bound) and names_in(r.value) <= bound and bool(names_in(r.value))
+        if not (inside or vianame):
+            return False
+        # no arithmetic on the result
+        if any(isinstance(n, (ast.BinOp, ast.UnaryOp)) for n in ast.walk(r.value)):
+            return False
+    return True
 
 
 def _is_sum_of_pair(expr, f):
